@@ -684,6 +684,7 @@ func init() {
 		c05HistoryPassive(c)
 		c05T7Dwell(c)
 		c05LateWrite(c)
+		c09SlowHandlerSuccessor(c)         /* a receive goroutine abandoned by a bounded teardown (blocked inline handler) returns after the successor generation is Selected (c09_slowhandler2.go; seeded C05d-2) */
 		c10RacePublish(c, c.Pick(40, 200)) /* the deterministic Close-vs-publish race on every transport: C05's after-Close clause (seeded C05a-2 / C05b-2 / C05c-2) */
 	}
 }
